@@ -14,28 +14,66 @@ ASSUMPTIONS = ['requests are whole frames (enforced by the public wrappers: C05 
 
 
 def updater_facts(f):
-    """facts of a peak updater: dict"""
+    """facts of a peak updater, independent of spelling: loops may be for or while, psf->sf.channels may have been copied into a local,
+    &psf->peak_info->peaks [chan] may have been taken into a pointer, fabs (buffer [k]) may have a temporary"""
+    import re as _re
+    from engine.util import local_defs
+    LOOPS = ('ForStmt', 'WhileStmt', 'DoStmt')
+    params = {p_['n'] for p_ in f.params}
+    al = assigned_lvalues(f)
+    # names that only stand for something else: const copies of a field, pure temporaries, pointers to an element
+    subst = {}
+    for nm, ds in local_defs(f).items():
+        if nm in params or len(ds) != 1 or ds[0] is None:
+            continue
+        d = ds[0] if isinstance(ds[0], dict) else f.N[ds[0]]
+        du = f.unwrap(d)
+        if du.get('k') == 'MemberExpr' and sum(1 for lv, a, r in al if lv == nm) == 0:
+            subst[nm] = f.s(du)
+        elif du.get('k') == 'UnaryOperator' and du.get('op') == '&':
+            subst[nm + '->'] = f.s(f.unwrap(f.N[du['kids'][0]])) + '.'
+        elif du.get('k') == 'CallExpr' and du.get('callee') in ('fabs', 'fabsf') and sum(1 for lv, a, r in al if lv == nm) <= 1:
+            subst[nm] = f.s(du)
+
+    def S(x):
+        t = f.s(x) if not isinstance(x, str) else x
+        for k_, v_ in subst.items():
+            if k_.endswith('->'):
+                t = t.replace(k_, v_)
+            else:
+                t = _re.sub(r'(?<![\w>.])%s(?![\w])' % _re.escape(k_), v_, t)
+        return t
     facts = {}
-    fors = [n for n in f.walk() if n['k'] == 'ForStmt']
-    facts['n_for'] = len(fors)
-    if len(fors) >= 2:
-        outer, inner = fors[0], fors[1]
-        facts['outer_cond'] = f.s(outer['cond']) if 'cond' in outer else None
-        facts['inner_init'] = f.s(inner['init']) if 'init' in inner else None
-        facts['inner_cond'] = f.s(inner['cond']) if 'cond' in inner else None
-        facts['inner_inc'] = f.s(inner['inc']) if 'inc' in inner else None
-        ifs = [n for n in f.walk(inner['body']) if n['k'] == 'IfStmt']
-        facts['scan_cmp'] = f.N[ifs[0]['cond']].get('op') if ifs else None
-        facts['scan_cmp_s'] = f.s(ifs[0]['cond']) if ifs else None
-    upd = [n for n in f.walk() if n['k'] == 'IfStmt' and 'peak_info->peaks' in f.s(n['cond'])]
+    loops = [n for n in f.walk() if n['k'] in LOOPS]
+    facts['n_for'] = len(loops)
+    if len(loops) >= 2:
+        outer = loops[0]
+        inner = [n for n in f.walk(f.N[outer['body']]) if n['k'] in LOOPS]
+        inner = inner[0] if inner else None
+        facts['outer_cond'] = S(outer['cond']) if 'cond' in outer else None
+        if inner is not None:
+            facts['inner_cond'] = S(inner['cond']) if 'cond' in inner else None
+            # start and step of the scan index: the for-init / for-inc, or the assignments to the index variable before / inside a while
+            idx = None
+            cn = f.unwrap(f.N[inner['cond']]) if 'cond' in inner else None
+            if cn is not None and cn.get('k') == 'BinaryOperator':
+                idx = f.s(f.unwrap(f.N[cn['kids'][0]]))
+            starts = [S(a) for lv, a, r in assigned_lvalues(f, f.N[outer['body']]) if lv == idx and a.get('op') == '=' and not f.within(a, f.N[inner['body']])]
+            steps = [S(a) for lv, a, r in assigned_lvalues(f, inner) if lv == idx and a.get('op') != '=']
+            facts['inner_init'] = starts[0] if len(starts) == 1 else starts
+            facts['inner_inc'] = steps[0] if len(steps) == 1 else steps
+            ifs = [n for n in f.walk(inner['body']) if n['k'] == 'IfStmt']
+            facts['scan_cmp'] = f.N[ifs[0]['cond']].get('op') if ifs else None
+            facts['scan_cmp_s'] = S(ifs[0]['cond']) if ifs else None
+    upd = [n for n in f.walk() if n['k'] == 'IfStmt' and 'peak_info->peaks' in S(n['cond'])]
     if upd:
         facts['update_cmp'] = f.N[upd[0]['cond']].get('op')
-        facts['update_cmp_s'] = f.s(upd[0]['cond'])
+        facts['update_cmp_s'] = S(upd[0]['cond'])
         for lv, n, rhs in assigned_lvalues(f, upd[0]['then']):
-            if lv.endswith('.position'):
-                facts['position'] = f.s(rhs)
-            if lv.endswith('.value'):
-                facts['value'] = f.s(rhs)
+            if S(lv).endswith('.position'):
+                facts['position'] = S(rhs)
+            if S(lv).endswith('.value'):
+                facts['value'] = S(rhs)
     return facts
 
 
